@@ -38,10 +38,12 @@ Definition ret_of (st : tstate) (h : N) : bool := nth (N.to_nat h) (ts_rets st) 
 Definition show_cuid (c : str) : str :=
   [97; 58] ++ hex (fst (cuid_to_id c)) ++ [58] ++ show_bool (suffixb bg_suffix c).
 
-Definition do_add (st : tstate) (bg tmp ret : bool) (cmd : str) : tstate * str :=
+Definition do_add_gen (internal : bool) (st : tstate) (bg tmp ret : bool) (cmd : str) : tstate * str :=
   let k := length (ts_cuids st) in
-  let (t', cuid) := register (ts_tbl st) false bg cmd (uid_str k) (mkH (N.of_nat k) tmp) in
+  let (t', cuid) := register (ts_tbl st) internal bg cmd (uid_str k) (mkH (N.of_nat k) tmp) in
   (mkT t' (ts_cuids st ++ [cuid]) (ts_rets st ++ [ret]) (ts_closed st), cuid).
+
+Definition do_add := do_add_gen false.
 
 Definition lower_cmd_part (c : str) : str :=
   match index_byte colon c with
@@ -77,6 +79,12 @@ Fixpoint run_ops (fuel : nat) (st : tstate) (args : list str) : list str :=
       else if one_byte06 66 op then                                    (* B cmd *)
         match rest with
         | cmd :: r => let (st', c) := do_add st true false false cmd in show_cuid c :: run_ops f st' r
+        | _ => [bs "?args"]
+        end
+      else if one_byte06 73 op then                                    (* I cmd bg: internal registration *)
+        match rest with
+        | cmd :: b :: r =>
+          let (st', c) := do_add_gen true st (one_byte06 49 b) false false cmd in show_cuid c :: run_ops f st' r
         | _ => [bs "?args"]
         end
       else if one_byte06 84 op then                                    (* T cmd ret *)
